@@ -29,7 +29,16 @@ func concCheck(c *report.Check, prop string, kv bool) {
 	if c.Thorough() {
 		mb = 2
 	}
-	sum := e2.Drive(c, []e2.Plan{{Scns: scns, Bound: bound, NShards: ns}, {Scns: ms, Bound: mb, NShards: ns}}, 0)
+	var two, three []string
+	for _, sc := range scns {
+		if strings.Count(strings.Split(sc, "|")[1], ";") >= 2 {
+			three = append(three, sc)
+		} else {
+			two = append(two, sc)
+		}
+	}
+	sum := e2.Drive(c, []e2.Plan{{Scns: two, Bound: bound, NShards: ns}, {Scns: three, Bound: 1, NShards: ns}, {Scns: ms, Bound: 1, NShards: ns}}, 0)
+	mb = 1
 	c.Set("conc_scenarios_with_maintenance_thread", len(ms))
 	c.Set("conc_preemption_bound_with_maintenance_thread", mb)
 	scns = append(append([]string{}, scns...), ms...)
